@@ -99,6 +99,18 @@ def add(x, y):
     # y: constant, or small bounded value
     # window: bits below L may change; L = bit length of (max low part of x below L) + y.hi
     # find the smallest L such that (x's bits < L as max number) + y.hi < 2^L  and y has no bits >= L possible
+    # y is a constant with tz trailing zeros: bits below tz are unchanged; above, add numerically over the
+    # maximal run [tz, j) of constant bits of x, provided nothing carries out of the run and y has no bit >= j
+    if y.known():
+        c = y.value()
+        tz = (c & -c).bit_length() - 1 if c else w
+        j = tz
+        while j < w and x.bits[j] in (0, 1): j += 1
+        if (c >> j) == 0 or j == w:
+            part = sum(1 << (i - tz) for i in range(tz, j) if x.bits[i] == 1) + (c >> tz)
+            if j == w or part < (1 << (j - tz)):
+                part &= (1 << (j - tz)) - 1
+                return AV(w, x.bits[:tz] + [(part >> (i - tz)) & 1 for i in range(tz, j)] + x.bits[j:])
     ymax = y.hi
     for L in range(0, w + 1):
         xlow_max = min(sum(1 << i for i in range(L) if x.bits[i] != 0), x.hi)
@@ -112,13 +124,6 @@ def add(x, y):
             else:
                 low = ['?'] * L
             return AV(w, low + x.bits[L:], x.lo + y.lo, min(x.hi + y.hi, (1 << w) - 1))
-    # y has zero low bits and x's bits at/above are constants: add the high parts numerically
-    if y.known():
-        c = y.value()
-        tz = (c & -c).bit_length() - 1 if c else w
-        if all(b in (0, 1) for b in x.bits[tz:]):
-            hi = (sum(1 << i for i in range(tz, w) if x.bits[i] == 1) + c) & ((1 << w) - 1)
-            return AV(w, x.bits[:tz] + [(hi >> i) & 1 for i in range(tz, w)])
     # interval reasoning modulo 2^w: both ends wrap the same number of times
     lo, hi = x.lo + y.lo, x.hi + y.hi
     if (lo >> w) == (hi >> w):
@@ -171,6 +176,9 @@ class Evaluator:
             if a.ty == 'i1':
                 return AV(int(n.ty[1:]), ['?'] + [0] * (int(n.ty[1:]) - 1), 0, 1)
             return zext(self.ev(a), int(n.ty[1:]))
+        if op == 'sext':
+            a = self.ev(n.args[0]); w2 = int(n.ty[1:])
+            return AV(w2, a.bits + [a.bits[-1]] * (w2 - a.w))
         if op == 'add':
             return add(self.ev(n.args[0]), self.ev(n.args[1]))
         if op == 'sub':
@@ -181,8 +189,23 @@ class Evaluator:
                 return AV(a.w, ['?'] * a.w, max(0, a.value() - b.hi), a.value() - b.lo if a.value() >= b.lo else None)
             return AV(a.w, ['?'] * a.w)
         if op == 'ite':
+            c = n.args[0]
             x, y = self.ev(n.args[1]), self.ev(n.args[2])
-            return AV(x.w, [a if a == b and a != '?' else '?' for a, b in zip(x.bits, y.bits)], min(x.lo, y.lo), max(x.hi, y.hi))
+            zero_set = set()
+            zc = [a for a in c.args if a.op == 'const' and a.attr[1] == 0] if c.op == 'icmp' and c.attr == 'eq' else []
+            if zc:
+                # on the true branch every input bit that feeds the tested value is zero
+                try:
+                    tv = self.ev([a for a in c.args if a is not zc[0]][0])
+                    if all(b == 0 or (b != '?' and b != 1 and b[0] == 'in') for b in tv.bits):
+                        zero_set = set(b[1] for b in tv.bits if b != 0)
+                except NotBits:
+                    pass
+            def merge(a, b):
+                if a == b and a != '?': return a
+                if a == 0 and b != '?' and b not in (0, 1) and b[0] == 'in' and b[1] in zero_set: return b
+                return '?'
+            return AV(x.w, [merge(a, b) for a, b in zip(x.bits, y.bits)], min(x.lo, y.lo), max(x.hi, y.hi))
         if n.ty and n.ty.startswith('i') and n.ty != 'i1':
             w = int(n.ty[1:])
             return AV(w, ['?'] * w)
